@@ -87,6 +87,17 @@ type Visit struct {
 	Trail []string `json:"trail"`
 }
 
+// RouteError is a route request of a routing connector that the router refused.
+type RouteError struct {
+	Seq   int64    `json:"seq"`
+	Key   string   `json:"key"` // ConnKey of the instance
+	Inst  int      `json:"inst"`
+	Tag   string   `json:"tag"`
+	Trail []string `json:"trail"` // trail of the payload that could not be routed
+	Route []string `json:"route"` // the route as requested
+	Err   string   `json:"err"`
+}
+
 // Instance keys.
 
 func RecvKey(sig Signal, id string) string { return "receiver:" + string(sig) + ":" + id }
@@ -144,6 +155,7 @@ type Env struct {
 	logFilter  func(msg string) bool
 
 	asyncPanics []AsyncPanic
+	routeErrors []RouteError
 
 	shared *sharedcomponent.Map[component.ID, *sharedRecv]
 	async  sync.WaitGroup
@@ -175,7 +187,7 @@ func NewEnv(opts Options) *Env {
 func (e *Env) Reset() {
 	e.mu.Lock()
 	defer e.mu.Unlock()
-	e.events, e.deliveries, e.visits, e.asyncPanics = nil, nil, nil, nil
+	e.events, e.deliveries, e.visits, e.asyncPanics, e.routeErrors = nil, nil, nil, nil, nil
 	e.creates = map[string]int{}
 	e.injectors = map[string]*Injector{}
 	e.failStart, e.failStop = map[string]error{}, map[string]error{}
@@ -244,6 +256,20 @@ func (e *Env) deliver(d *Delivery) {
 	d.Seq = seq.Add(1)
 	e.deliveries = append(e.deliveries, d)
 	e.mu.Unlock()
+}
+
+func (e *Env) routeError(r RouteError) {
+	e.mu.Lock()
+	r.Seq = seq.Add(1)
+	e.routeErrors = append(e.routeErrors, r)
+	e.mu.Unlock()
+}
+
+// RouteErrors returns the route requests that routers refused so far.
+func (e *Env) RouteErrors() []RouteError {
+	e.mu.Lock()
+	defer e.mu.Unlock()
+	return append([]RouteError(nil), e.routeErrors...)
 }
 
 func (e *Env) visit(v Visit) {
